@@ -589,24 +589,33 @@ def validator_selfcheck(_):
     scn = norm_scenario(all_scenarios(False)[4])
     res = Result()
     try:
-        run, obs = run_schedule(scn, [[30, 1]])
+        try:
+            run, obs = run_schedule(scn, [[30, 1]])
+        except Infra:
+            raise
         good = list(obs.events)
 
         def ask(evs):
             obs.events = evs
             return proto.run_lines([trace_line(scn, obs)])[0]
-        variants = {'as-recorded': (good, '( ok')}
+        if run.deadlock or run.errors or not ask(good).startswith('( ok'):
+            # the code under test does not follow the model under this schedule: that is reported
+            # by the oracle / the trace-validation stream, not by the self-check of the validator
+            return res
+        variants = {}
         if (1, 'blk') in good:
             b = list(good)
             b[b.index((1, 'blk'))] = (1, 'acq')
             variants['two-holders'] = (b, '( reject')
-        variants['no-acquire'] = ([e for e in good if e != (0, 'acq')], '( reject')
+        if (0, 'acq') in good:
+            variants['no-acquire'] = ([e for e in good if e != (0, 'acq')], '( reject')
         puts = [e for e in good if e[1] == 'put']
         if puts:
             variants['wrong-object'] = ([(e[0], 'put', e[2] + 7) if e == puts[0] else e for e in good], '( reject')
-        b = list(good)
-        b.remove((0, 'rel'))
-        variants['no-release'] = (b, '( reject')
+        if (0, 'rel') in good:
+            b = list(good)
+            b.remove((0, 'rel'))
+            variants['no-release'] = (b, '( reject')
         variants['truncated'] = (good[:-3], '( incomplete')
         for name, (evs, want) in sorted(variants.items()):
             ans = ask(evs)
